@@ -1113,6 +1113,60 @@ theorem trans_C02_C08_Flush_is_flushCall (c : BCfg) (s s' : St) (h : step c s .f
   cases h
   cases s.flushReq <;> simp [v2_Flush]
 
+/-! ### the listener registry (v2 `EventerBase`; the sequential meaning of what runs under its RWMutex)
+
+The map `listeners` is an association list (id, listener); `uuid.New()` is an input. -/
+
+/-- `AddListener` registers the listener under the fresh id and returns that id; every other registration stays -/
+theorem trans_C20_AddListener_v2 (ls : List (Int × Int)) (newId fn : Int) (hfresh : ∀ kv ∈ ls, kv.1 ≠ newId) :
+    v2_ev_AddListener ⟨ls⟩ newId fn = (⟨(newId, fn) :: ls⟩, newId) := by
+  have hf : ls.filter (fun kv => kv.1 != newId) = ls := by
+    apply List.filter_eq_self.2
+    intro kv hkv
+    simpa using hfresh kv hkv
+  cases ls with
+  | nil => simp [v2_ev_AddListener]
+  | cons a rest => simp [v2_ev_AddListener] at hf ⊢; exact hf
+
+/-- after `RemoveListener(id)` has returned no registration under `id` is left, and every other one is -/
+theorem trans_C20_RemoveListener_v2 (ls : List (Int × Int)) (id : Int) :
+    (∀ kv ∈ (v2_ev_RemoveListener ⟨ls⟩ id).listeners, kv.1 ≠ id) ∧
+    (∀ kv ∈ ls, kv.1 ≠ id → kv ∈ (v2_ev_RemoveListener ⟨ls⟩ id).listeners) := by
+  simp only [v2_ev_RemoveListener, List.mem_filter]
+  exact ⟨fun kv h => by simpa using h.2, fun kv h hne => ⟨h, by simpa using hne⟩⟩
+
+/-- `Emit` calls exactly the registered listeners, each once per registration (the machine's snapshot at `emitBegin`) -/
+theorem trans_C20_Emit_v2 (ls : List (Int × Int)) (val : Int) : v2_ev_Emit ⟨ls⟩ val = ls.map (·.2) := by
+  simp [v2_ev_Emit]
+
+/-- so a listener removed before an emit begins is not called by it, and one added before is -/
+theorem trans_C20_no_call_after_remove_v2 (ls : List (Int × Int)) (id fn val : Int)
+    (huniq : ∀ kv ∈ ls, kv.2 = fn → kv.1 = id) :
+    fn ∉ v2_ev_Emit (v2_ev_RemoveListener ⟨ls⟩ id) val := by
+  rw [trans_C20_Emit_v2]
+  intro h
+  obtain ⟨kv, hkv, hfn⟩ := List.mem_map.1 h
+  have := (trans_C20_RemoveListener_v2 ls id).1 kv hkv
+  simp only [v2_ev_RemoveListener, List.mem_filter] at hkv
+  exact this (huniq kv hkv.1 hfn)
+
+/-- v1's registry (`eventer`) is the same three functions -/
+theorem trans_C20_eventer_v1 (ls : List (Int × Int)) (newId fn id val : Int) (hfresh : ∀ kv ∈ ls, kv.1 ≠ newId) :
+    v1_ev_AddListener ⟨ls⟩ newId fn = (⟨(newId, fn) :: ls⟩, newId) ∧
+    (∀ kv ∈ (v1_ev_RemoveListener ⟨ls⟩ id).listeners, kv.1 ≠ id) ∧
+    (∀ kv ∈ ls, kv.1 ≠ id → kv ∈ (v1_ev_RemoveListener ⟨ls⟩ id).listeners) ∧
+    v1_ev_emit ⟨ls⟩ val = ls.map (·.2) := by
+  have hf : ls.filter (fun kv => kv.1 != newId) = ls := by
+    apply List.filter_eq_self.2
+    intro kv hkv
+    simpa using hfresh kv hkv
+  refine ⟨?_, ?_, ?_, by simp [v1_ev_emit]⟩
+  · cases ls with
+    | nil => simp [v1_ev_AddListener]
+    | cons a rest => simp [v1_ev_AddListener] at hf ⊢; exact hf
+  · simp only [v1_ev_RemoveListener, List.mem_filter]; exact fun kv h => by simpa using h.2
+  · simp only [v1_ev_RemoveListener, List.mem_filter]; exact fun kv h hne => ⟨h, by simpa using hne⟩
+
 /-! ### non-vacuity: the translated functions on concrete values (also a readable trace of what they compute) -/
 
 example : v2_incTarget ⟨7⟩ 5 = ⟨12⟩ ∧ v2_incTarget ⟨7⟩ (-5) = ⟨2⟩ ∧ v2_incTarget ⟨7⟩ (-9) = ⟨0⟩ ∧ v2_incTarget ⟨7⟩ 0 = ⟨7⟩ := by decide
